@@ -167,6 +167,17 @@ def table_tree(z3, idx, table, width_out):
     return build(0, n)
 
 
+def int_table_tree(z3, idx, table):
+    """as table_tree but in the integer domain: idx is a z3 Int term, leaves are Int constants"""
+    def build(lo, hi):
+        first = table[lo]
+        if all(table[i] == first for i in range(lo, hi)):
+            return z3.IntVal(first)
+        mid = (lo + hi) // 2
+        return z3.If(idx < mid, build(lo, mid), build(mid, hi))
+    return build(0, len(table))
+
+
 def float_table_tree(z3, idx, table):
     """If tree over a table of python floats -> Float32 term"""
     F32 = z3.Float32()
@@ -220,9 +231,18 @@ def round_z3(z3, fmt, h, mode):
     F32 = z3.Float32()
     x = z3.fpToFP(z3.RNE(), z3.fpBVToFP(h, z3.Float16()), F32)     # exact widening
     emin = 1 - bias
-    wide = z3.FPSort(8, mb + 1)
     # normal range: RNE to mb+1 significant bits with an (effectively) unbounded exponent
-    rn = z3.fpToFP(z3.RNE(), z3.fpToFP(z3.RNE(), x, wide), F32)
+    if mb + 1 >= 3:
+        wide = z3.FPSort(8, mb + 1)
+        rn = z3.fpToFP(z3.RNE(), z3.fpToFP(z3.RNE(), x, wide), F32)
+    else:
+        # z3 has no FP sort with fewer than 3 significand bits: round binade by binade, the quantum in [2^E, 2^(E+1)) is 2^(E-mb)
+        rn = x
+        for E in range(emin, 17):
+            inb = z3.And(z3.fpGEQ(z3.fpAbs(x), z3.FPVal(2.0 ** E, F32)), z3.fpLT(z3.fpAbs(x), z3.FPVal(2.0 ** (E + 1), F32)))
+            q = 2.0 ** (E - mb)
+            rb = z3.fpMul(z3.RNE(), z3.fpRoundToIntegral(z3.RNE(), z3.fpMul(z3.RNE(), x, z3.FPVal(1.0 / q, F32))), z3.FPVal(q, F32))
+            rn = z3.If(inb, rb, rn)
     # subnormal range of the target: fixed quantum 2^(emin - mb)
     k = mb - emin
     rs = z3.fpMul(z3.RNE(), z3.fpRoundToIntegral(z3.RNE(), z3.fpMul(z3.RNE(), x, z3.FPVal(2.0 ** k, F32))), z3.FPVal(2.0 ** -k, F32))
